@@ -193,3 +193,19 @@ Proof. intros H. unfold fits. rewrite H. reflexivity. Qed.
 
 Lemma fits_lit_unsigned n t v : lit_val (tk t) = Some v -> fits (OLit (Unsigned n)) t = (v <? 2 ^ n).
 Proof. intros H. unfold fits. rewrite H. reflexivity. Qed.
+
+(** What an accepted instruction statement leaves behind: exactly its operands are consumed and
+    the recorded end is the end of the last operand (the end recorded before, when it has none). *)
+Corollary parse_instr_consumes sym line k toks te n s rest te2 :
+  parse_instr sym line k (toks, te) n = Ok (s, (rest, te2)) ->
+  rest = skipn (length (shape k)) toks /\ te2 = last_end (firstn (length (shape k)) toks) te.
+Proof.
+  intros H. pose proof (parse_instr_accepts sym line k toks te n) as K. rewrite H in K. apply K.
+Qed.
+
+Corollary parse_trap_consumes k toks te n s rest te2 :
+  parse_trap k (toks, te) n = Ok (s, (rest, te2)) ->
+  rest = skipn (length (trap_shape k)) toks /\ te2 = last_end (firstn (length (trap_shape k)) toks) te.
+Proof.
+  intros H. pose proof (parse_trap_accepts k toks te n) as K. rewrite H in K. apply K.
+Qed.
